@@ -81,4 +81,9 @@ TEXT = {
         "level_text": "Exploration: for 2-3 generated segments and caller-owned bitmaps (array containers of consecutive values, so an in-place RunOptimize is visible), after every action of a drawn history (exclusion walks, DocsMatchingTerms, visits, WriteTo, hooked and public merges with the bitmaps as drops) every segment's full observation and persisted bytes and every bitmap's members and serialised bytes must equal the snapshot taken before.",
         "level_note": "Trusts the observation walker and roaring serialisation as the representation witness.",
     },
+    "C19": {
+        "technique": "storage fault injection enumerated exhaustively inside generated cases: all reads fail from the k-th on, for every k, on a freshly loaded file-backed segment",
+        "level_text": "Fault enumeration: for each generated file-backed segment and sequence of 3-10 read calls, the fault-free run counts the storage reads; then for every k the segment is loaded afresh and every ReadAt from the k-th on fails. Every call must return (watchdog with goroutine-dump confirmation of a mutex block inside ice), a call that saw a failing read must yield an error, an empty result or the correct result, a call that saw none must be correct, and nothing may panic. About 5*10^4 faulted calls per quick run.",
+        "level_note": "Depends on the layout of bluge_segment_api.Data (self-tested); for read sequences longer than 300 reads the first 120 and last 20 fault points are exhaustive and the middle is strided.",
+    },
 }
